@@ -658,6 +658,31 @@ FAMILIES = {
 }
 
 
+def op_shape_chain(rng: Rng, opname: str) -> str | None:
+    """`g = X(...); s = Shape(g); out = Reshape(z, s)`: whether Shape(g) folds depends on node-level shape inference finding
+    X's schema. For the operators some scripts use as helper names."""
+    a, b = rng.choice([(2, 8), (4, 4), (2, 6)])
+    sig = {
+        "Gelu": (20, f"float[{a},{b}] x", "g = Gelu(x)", ""),
+        "Mish": (18, f"float[{a},{b}] x", "g = Mish(x)", ""),
+        "LayerNormalization": (17, f"float[{a},{b}] x", "g = LayerNormalization(x, scale)", f"float[{b}] scale = {{{_floats(rng, b)}}}"),
+        "RMSNormalization": (23, f"float[{a},{b}] x", "g = RMSNormalization(x, scale)", f"float[{b}] scale = {{{_floats(rng, b)}}}"),
+        "BitwiseAnd": (18, f"int32[{a},{b}] x", "g = BitwiseAnd(x, x)", ""),
+    }.get(opname)
+    if sig is None:
+        return None
+    ver, xdecl, stmt, init = sig
+    inits = f"<{init}>" if init else ""
+    return f"""<ir_version: 10, opset_import: ["" : {max(ver, rng.choice([ver, 21, 23]))}]>
+agraph ({xdecl}, float[{a * b}] z) => (float[?,?] out)
+{inits}
+{{
+   {stmt}
+   s = Shape(g)
+   out = Reshape(z, s)
+}}"""
+
+
 # families whose members walk through declared variants: a batch takes one member per variant (capped), so that every
 # special path of the rule's check() is in every batch; other families vary only in parameters and get 3 members
 N_VARIANTS = {"hardswish": 7, "conv_affine": 5, "expand_binary": 5, "reshape_matmul": 7, "scatter_nd": 4, "rms_norm": 4, "pad_conv": 12, "reshape_reshape": 8, "fold_chain": 9, "slice_split": 7, "const_if": 7}
